@@ -110,6 +110,7 @@ def run_case(tape, tier):
         skipped = []         # siblings not serviced in the round of the fault
         inflight_at_fault = [False]
         snap = [None]
+        established = [None]  # the server side remoter of client 0's established connection when the peer reset it
 
         def track():
             srv = lab.server
@@ -202,6 +203,18 @@ def run_case(tape, tier):
                 elif fault["kind"] == "peer_rst":
                     if c.cs is not None:
                         raw = getattr(c.cs, 'sock', c.cs)
+                        rm0 = lab.remoter_for(0)
+                        if rm0 is not None and rm0 in lab.server.ixes.values() and c.connected:
+                            established[0] = rm0
+                        if raw.state == "connected" and c.connected and tape.flag("data_then_rst", 1, 2):
+                            # last words: data that reaches the server's socket before the RST and is still unread there
+                            c.tx(b"last words before the reset")
+                            try:
+                                lab.svc_client(0)
+                            except OSError:
+                                pass
+                            net.step()
+                            res.faults["data_then_rst"] += 1
                         if raw.state == "connected":
                             net.rst(raw.peer)
                             raw.state = "closed"
@@ -323,6 +336,13 @@ def run_case(tape, tier):
                 if bad:
                     res.violate("not-marked", "client 0 went away (%s) but its server-side remoter is cutoff=%s aborted=%s" % (
                         fault["kind"], bad[0].cutoff, getattr(bad[0], "aborted", None)))
+                rm0 = established[0]
+                if rm0 is not None and not rm0.cutoff and lab.server.ixes.get(rm0.ca) is not rm0 and \
+                        lab.server.ixes.get(rm0.ca) is None:
+                    # a peer reset is one of the classified faults: the connection is marked and stays with the server for
+                    # the application to look at and remove; dropping it unmarked is what happens to unclassified errors
+                    res.violate("dropped-not-marked", "client 0 reset its established connection; the server dropped the "
+                                "remoter for %s from .ixes without marking it cutoff (what it had received is gone with it)" % (rm0.ca,))
             elif fault["kind"] == "server_closes_remoter" and peer_event_done:
                 c = lab.clients[0]
                 res.comparisons += 1
